@@ -146,7 +146,14 @@ def scenario(src, n=3, k=1, removal=True):
 
 REACH = ('prefix-done', 'op:event', 'op:forced', 'op:snapshot', 'op:loss', 'op:removal')
 
+def _admission_gate():
+    from harness import c13
+    return c13.admission_gate
+
+
 HARNESSES = [
+    Harness('H11-gate', _admission_gate(), quick={}, thorough={}, reach=('admitted', 'not-admitted'), timeout=(30, 60),
+            doc='process events of every kind are taken into account from a CHECKED or RUNNING sender (and only from those): the information received in the CHECKED window counts (scenario shared with C13 H13d)'),
     Harness('H11-n2', scenario, quick={'n': 2, 'k': 1}, thorough={'n': 2, 'k': 1}, reach=REACH, timeout=(120, 300),
             doc='symbolic prefix + 1 arbitrary operation on the real Context/ProcessStatus vs the model, N=2'),
     Harness('H11-n3', scenario, quick={'n': 3, 'k': 1}, thorough={'n': 3, 'k': 1}, reach=REACH, timeout=(60, 1200),
